@@ -37,6 +37,9 @@ CHECKS = {
  'C10': ('treedec', 'TLC enumerates all graphs (MC_TreeDec; R3: DP treewidth = min over all elimination orders) -> tree_decomposition x 3 methods, min_fill, minor_min_width, quickbb -> TLC judges validity and optimality by definition (Trace_TreeDec)',
          'Exhaustive over every labelled simple graph on <=5 (quick) / <=6 (thorough) vertices in two vertex insertion orders, structured graphs (cliques, paths, cycles, stars, grids) and seeded graphs on 7-9 vertices; TLC decides tree-ness, coverage, running intersection and computes the treewidth by subset DP, itself cross-checked against all elimination orders (R3).',
          'Trusted: TLC, TreeDec.tla (definition of tree decomposition, treewidth DP), the driver that converts the returned dict of frozensets into bags/edges. Empty graph: only validity (width conventions differ).', 'DESIGN.md#c10'),
+ 'C11': ('config-matrix', 'seeded non-recursive grammars and TLC-certified recursive grammars -> the configuration matrix method x j_precompute x dtype x semiring (+ gradients) executed in worker processes started as python / python -O / python -OO, and bin/sum_product.py itself under -OO with -d -G [-j] -> TLC judges (Trace_Config, Trace_Recursive): every configuration yields the one definitional value and gradient; Bool = support of Real and max-product <= sum-product proved at model level on each grammar',
+         '54 (quick) / 550 (thorough) grammars x ~100 configurations each, three interpreter optimisation levels as separate processes, the shipped command-line tool on JSON files; agreement between configurations follows from agreement of each with the single specification value (exact carriers; certified least fixed points for recursive grammars).',
+         'Trusted: TLC, Semantics.tla, projections. j_precompute=True is defective for three structural classes of rules (edge sharing no node with the others, edge-less node, repeated attachment): recorded findings with spec-evaluated signatures; everything outside those classes is still gated.', 'DESIGN.md#c11'),
  'C12': ('builder', 'TLC builder machine (MC_Builder) generates construction schedules (-simulate; R3 Confluent) -> replayed on the real API on re-ordered / renamed / value-permuted presentations with explicit or implicit ids -> sum_products -> TLC judge (Trace_Present): observed = meaning(presented) and, model-level, meaning(presented) = renamed/permuted meaning(original)',
          '280 (quick) / 14 000 (thorough) TLC-generated construction schedules over presentations of seeded grammars: order of add_node/add_edge/add_rule/add_domain/add_factor/add_edge_label calls, rule/node/edge order, label renaming, domain-value permutation with factor axes, explicit vs implicit ids; 4 semirings, 3 methods, 2 dtypes; every result must equal the exact meaning of the presented grammar, which TLC proves to be the permuted meaning of the original.',
          'Trusted: TLC, Semantics.tla, the presentation generator (its correctness is itself checked by the model-level theorem: a wrong permutation makes the check fail as machinery error, exit 2). Non-recursive targets; gradients / viterbi weights under re-presentation are exercised through the C03/C04 oracles.', 'DESIGN.md#c12'),
